@@ -431,11 +431,13 @@ fn main() {
             (Spec::Histogram { len: 3, chunk: 2 }, c(4913, if q { 72 } else { 289 }, 1, if q { 2 } else { 6 })),
             (Spec::Multihot { len: 2, max_weight: 1, chunk: 2 }, c(4913, if q { 72 } else { 289 }, 1, if q { 2 } else { 6 })),
             (Spec::L1 { max: 1, len: 1, chunk: 2 }, c(289, 17, 3, if q { 36 } else { 289 })),
+            // last chunk holds exactly one element (flattened length = 1 mod chunk length), and chunk length 1
+            (Spec::L1 { max: 1, len: 2, chunk: 2 }, c(4913, if q { 17 } else { 289 }, 1, if q { 2 } else { 4 })),
+            (Spec::L1 { max: 1, len: 1, chunk: 1 }, c(289, 289, 1, if q { 4 } else { 36 })),
         ];
         if !q {
             v.push((Spec::SumVec { max: 2, len: 2, chunk: 3 }, c(83521, 100, 1, 1)));
             v.push((Spec::Multihot { len: 2, max_weight: 2, chunk: 3 }, c(83521, 100, 1, 1)));
-            v.push((Spec::L1 { max: 1, len: 2, chunk: 2 }, c(4913, 289, 1, 4)));
             v.push((Spec::L1 { max: 2, len: 1, chunk: 3 }, c(83521, 100, 1, 1)));
             v.push((Spec::Sum { max: 5 }, c(4913, 1, 3, 216)));
             v.push((Spec::Histogram { len: 4, chunk: 3 }, c(83521, 100, 1, 1)));
